@@ -99,7 +99,13 @@ type rewriter struct {
 func (r *rewriter) off(p token.Pos) int { return r.fset.Position(p).Offset }
 
 func (r *rewriter) add(p token.Pos, text string) {
-	r.list = append(r.list, ins{off: r.off(p), text: text, seq: len(r.list)})
+	off := r.off(p)
+	for _, in := range r.list {
+		if in.off == off && in.text == text {
+			return // the same yield asked for twice (first statement of a select case)
+		}
+	}
+	r.list = append(r.list, ins{off: off, text: text, seq: len(r.list)})
 }
 
 func (r *rewriter) yield(at token.Pos) string {
@@ -141,8 +147,46 @@ func isRecv(e ast.Expr) bool {
 	return ok && u.Op == token.ARROW
 }
 
+// hasRecv: a channel receive somewhere in the expressions, not inside nested blocks or
+// function literals (those are visited on their own).
+func hasRecv(nodes ...ast.Node) bool {
+	found := false
+	for _, n := range nodes {
+		if n == nil || found {
+			continue
+		}
+		ast.Inspect(n, func(n ast.Node) bool {
+			switch n := n.(type) {
+			case *ast.BlockStmt, *ast.FuncLit:
+				return false
+			case *ast.UnaryExpr:
+				if n.Op == token.ARROW {
+					found = true
+				}
+			}
+			return !found
+		})
+	}
+	return found
+}
+
 func (r *rewriter) stmt(s ast.Stmt) {
 	switch s := s.(type) {
+	case *ast.IfStmt:
+		var init ast.Node
+		if s.Init != nil {
+			init = s.Init
+		}
+		if hasRecv(init, s.Cond) {
+			r.before(s)
+		}
+	case *ast.ReturnStmt:
+		for _, e := range s.Results {
+			if hasRecv(e) {
+				r.before(s)
+				break
+			}
+		}
 	case *ast.SendStmt:
 		r.before(s)
 	case *ast.ExprStmt:
@@ -176,11 +220,26 @@ func (r *rewriter) stmt(s ast.Stmt) {
 		case isSel && name == "Done" && len(call.Args) == 0:
 			r.before(s)
 			r.after(s)
+		case (name == "cancel" || name == "Cancel") && len(call.Args) == 0:
+			// a cancellation becoming visible to the other goroutines
+			r.before(s)
+			r.after(s)
+		default:
+			if hasRecv(s.X) {
+				r.before(s)
+			}
 		}
 	case *ast.AssignStmt:
 		if len(s.Rhs) == 1 && isRecv(s.Rhs[0]) {
 			r.before(s)
 			r.after(s)
+		} else {
+			for _, e := range s.Rhs {
+				if hasRecv(e) {
+					r.before(s)
+					break
+				}
+			}
 		}
 	case *ast.SelectStmt:
 		r.before(s)
